@@ -97,7 +97,7 @@ def relayout(lines, rng, mnemonics, files=None):
         elif r < 0.25:
             out.append(" " * rng.randrange(0, 4) + "; " + rng.choice(COMMENT_WORDS))
         elif r < 0.32:
-            out.append("/* " + rng.choice(["block", "multi\nline", "* stars *", "x := 9"]) + " */")
+            out.append(rng.choice(["/* block */", "/* multi\nline */", "/* * stars * */", "/* x := 9 */", "/** doc **/", "/***/", "/**** x ****/", "/**/", "/* a * / b */"]))
         indent = rng.choice(["", "", "  ", "\t", "    "])
         trail = rng.choice(["", "", " ", "  "])
         eol = ""
